@@ -16,7 +16,7 @@ from typing import TYPE_CHECKING, Any, Callable
 
 from _griffe.agents.nodes.parameters import get_parameters
 from _griffe.enumerations import LogLevel, ParameterKind
-from _griffe.exceptions import NameResolutionError
+from _griffe.exceptions import BuiltinModuleError, NameResolutionError
 from _griffe.logger import logger
 
 if TYPE_CHECKING:
@@ -1241,7 +1241,7 @@ def safe_get_expression(
         node_class = node.__class__.__name__
         try:
             path: Path | str = parent.relative_filepath
-        except ValueError:
+        except (ValueError, BuiltinModuleError):
             path = "<in-memory>"
         lineno = node.lineno  # type: ignore[union-attr]
         error_str = f"{error.__class__.__name__}: {error}"
